@@ -67,6 +67,29 @@ def h_rotate_list(env, N, mask, L, kind='list'):
         env.goal('rank_unchanged', eq(obj.r, N // 2))
 
 
+def h_rotate_views(env, N, mask, form):
+    """rotate_by on a list whose table is a non-contiguous / shared view (see common.list_in_layout)"""
+    M = Mods(env)
+    n = N if mask is None else sum(mask)
+    gg = env.bits('gen', (2 * n,))
+    pg = env.signs('gen_sign', (1,))[0]
+    G = M.pa.Pauli(gg.copy(), pg)
+    L = 4 if form == 'strided' else 2
+    gs = env.bits('gs', (L, 2 * N))
+    ps = env.phases('ps', (L,))
+    obj, rows, shift = list_in_layout(env, M, gs, ps, form)
+    mk = None if mask is None else np.array(mask, dtype=bool)
+    r = env.run(lambda: obj.rotate_by(G) if mk is None else obj.rotate_by(G, mk))
+    env.goal('no_exception', b_not(r.raised))
+    if r.value is None:
+        return
+    gfull = gg if mask is None else embed_string(gg, mask, N)
+    for k, j in enumerate(rows):
+        ge, pe = ref.ref_rotate(gfull, pg, gs[j], (ps[j] + shift) % 4)
+        env.goal('row%d_string' % k, arr_eq(obj.gs[k], ge))
+        env.goal('row%d_phase' % k, eq(obj.ps[k], pe))
+
+
 def h_rotate_pauli(env, N, mask):
     M = Mods(env)
     n = N if mask is None else sum(mask)
@@ -208,6 +231,10 @@ def jobs(tier):
                     continue
                 J.append(dict(harness=('c02', 'h_rotate_list'), params=dict(N=N, mask=m, L=(2 * N if kind == 'map' else 2), kind=kind)))
         J.append(dict(harness=('c02', 'h_rotation_map'), params=dict(N=N)))
+        if N in (2, 3):
+            for form in LAYOUTS[1:]:
+                for m in (None, [True] + [False] * (N - 1), [False] * (N - 1) + [True], [True] * (N - 1) + [False]):
+                    J.append(dict(harness=('c02', 'h_rotate_views'), params=dict(N=N, mask=m, form=form)))
         if N <= (2 if tier == 'quick' else 3):
             for how in ('rotate', 'masked_rotate', 'edit'):
                 J.append(dict(harness=('c02', 'h_rotation_map_history'), params=dict(N=N, how=how), timeout_s=300, cost=10))
